@@ -73,6 +73,45 @@ def pairs(sel):
     return [(Instrument[i], Difficulty[d]) for i, d in sel]
 
 
+_FOLDER = None
+
+
+def song_folder() -> str:
+    """A run-private directory laid out like a Clone Hero / Guitar Hero song folder: song.ini with the usual keys (among them
+    name/artist/charter, delay, hopo_frequency, eighthnote_hopo, multiplier_note, diff_*), an album picture, audio stems, a second
+    chart. Charts read by path are written here as notes.chart. Removed at exit."""
+    global _FOLDER
+    if _FOLDER is None:
+        import atexit
+        import shutil
+        import tempfile
+
+        _FOLDER = tempfile.mkdtemp(prefix="vmon-song-")
+        atexit.register(shutil.rmtree, _FOLDER, True)
+        add_siblings(_FOLDER)
+    return _FOLDER
+
+
+def add_siblings(folder: str) -> None:
+    """fills a directory with what sits next to a chart in a song folder (see song_folder)"""
+    _FOLDER = folder
+    if True:
+        ini = ("[song]\nname = Folder Song\nartist = Folder Artist\nalbum = Folder Album\ngenre = Folder Genre\nyear = 1999\ncharter = Folder Charter\n"
+               "song_length = 215000\ndelay = 120\noffset = 120\npreview_start_time = 55000\nhopo_frequency = 170\neighthnote_hopo = 1\nhopofreq = 2\n"
+               "multiplier_note = 116\nstar_power_note = 116\nsustain_cutoff_threshold = 96\nfive_lane_drums = 1\npro_drums = True\n"
+               "diff_guitar = 4\ndiff_bass = 3\ndiff_drums = 5\ndiff_keys = -1\nicon = x\nloading_phrase = Have fun\nmodchart = 0\n"
+               "end_events = 0\nvideo_start_time = -500\nresolution = 480\nplayer2 = rhythm\n")
+        for fn in ("song.ini", "Song.ini"):
+            with open(os.path.join(_FOLDER, fn), "w", encoding="utf-8") as f:
+                f.write(ini if fn == "song.ini" else ini.replace("[song]", "[Song]"))
+        for fn, data in (("album.png", b"\x89PNG\r\n\x1a\n"), ("song.ogg", b"OggS"), ("guitar.ogg", b"OggS"), ("notes.mid", b"MThd"),
+                         ("notes.eof", b""), ("README.txt", b"hi")):
+            with open(os.path.join(_FOLDER, fn), "wb") as f:
+                f.write(data)
+        with open(os.path.join(_FOLDER, "notes.bak.chart"), "w") as f:
+            f.write("[Song]\n{\n  Resolution = 480\n  Name = \"Backup\"\n}\n[SyncTrack]\n{\n  0 = TS 3\n  0 = B 99000\n}\n[Events]\n{\n}\n")
+
+
 class _ReadOnly:
     """the least a caller's file object can be: read() and nothing else"""
 
@@ -177,7 +216,7 @@ def parse(text: str, want=None, newline_passthrough: bool = True) -> Outcome:
     """Chart.from_file on a StringIO (newline='' so CR LF reach the parser as written)."""
     env.LOG.drain()
     fp = io.StringIO(text, newline="") if newline_passthrough else io.StringIO(text)
-    _tmp = None
+    _tmp = _path = None
     if newline_passthrough and len(text) % 7 in (1, 4, 5, 6):
         # "a file object": besides StringIO, a text wrapper over bytes (what open() returns), a minimal object that only has
         # read(), a stream the caller has already read a banner line from (parsing starts where the caller left the stream, as
@@ -194,19 +233,30 @@ def parse(text: str, want=None, newline_passthrough: bool = True) -> Outcome:
                 banner = "# exported by a tool; the chart follows\n"
                 fp = io.StringIO(banner + text, newline="")
                 fp.readline()
-            elif len(text) < 60000:
+            elif len(text) % 14 == 6 and len(text) < 60000:
                 import tempfile
 
                 _tmp = fp = tempfile.TemporaryFile("w+", encoding="utf-8", newline="")
                 fp.write(text)
                 fp.seek(0)
+            elif len(text) < 60000 and "\r" not in text.replace("\r\n", "") and not text.startswith("\ufeff"):
+                # ... and the same characters in a FILE read by path, in a song folder as players keep them: next to a song.ini,
+                # an album picture, audio stems and another chart (harness.song_folder); what is in those is none of the parser's business
+                _path = os.path.join(song_folder(), "notes.chart" if threading.current_thread() is threading.main_thread()
+                                     else f"notes-{threading.get_ident()}.chart")
+                with open(_path, "wb") as f_:
+                    f_.write(raw)
         except UnicodeEncodeError:
             pass
     # (the form is a function of the input, so that a replay of a recorded case takes the same form)
     _CALLS = len(text) + (len(want) if want is not None and hasattr(want, "__len__") else 0)
     try:
         # the documented call forms rotate: the selection by keyword or positionally; "no selection" omitted or an explicit None
-        if werror.ON:
+        if _path is not None:
+            with werror():
+                c = Chart.from_filepath(_path if len(text) % 4 else __import__("pathlib").Path(_path)) if want is None else \
+                    Chart.from_filepath(_path, want_tracks=want)
+        elif werror.ON:
             with werror():
                 c = Chart.from_file(fp) if want is None else Chart.from_file(fp, want_tracks=want)
         elif want is None:
